@@ -57,7 +57,7 @@ func zzH_C01_api() {
 	if zzTier() >= 1 {
 		maxK = 3
 	}
-	if zzChoose(8) == 7 {
+	if zzChoose(2) == 1 {
 		zzC01Star(pool, maxO)
 		return
 	}
